@@ -882,34 +882,61 @@ func discoverFlag(c *Ctx, T *types.Named) *flagInfo {
 			}
 		})
 	}
-	// which boolean field does Initialize set to true?
-	ir.EachInstr(initM, func(_ *ssa.BasicBlock, _ int, in ssa.Instruction) {
-		switch x := in.(type) {
-		case *ssa.Store:
-			if fa, ok := x.Addr.(*ssa.FieldAddr); ok {
-				if key, owner, typ, _ := ir.FullField(fa); owner == tk && isBoolish(typ) {
-					if cst, ok := x.Val.(*ssa.Const); ok && cst.Value != nil && cst.Value.String() == "true" {
-						fi.field = key
+	// which boolean field does Initialize set to true? (itself, or in a method of the same type it calls: a handshake
+	// split into steps)
+	scan := []*ssa.Function{initM}
+	for d := 0; d < 2; d++ {
+		for _, f := range scan {
+			ir.EachCall(f, func(call ssa.CallInstruction) {
+				sc := ir.StaticCallee(call)
+				if sc == nil || !c.P.IsLib(sc) || sc.Signature.Recv() == nil || setterField[sc] != "" {
+					return
+				}
+				rt := sc.Signature.Recv().Type()
+				if pt, ok := rt.(*types.Pointer); ok {
+					rt = pt.Elem()
+				}
+				if nt, ok := rt.(*types.Named); !ok || ir.TypeKey(nt) != tk {
+					return
+				}
+				for _, g := range scan {
+					if g == sc {
+						return
 					}
 				}
-			}
-		case *ssa.Call:
-			if ir.CallName(x) == "(*sync/atomic.Bool).Store" {
-				if fa, ok := x.Call.Args[0].(*ssa.FieldAddr); ok {
-					if key, owner, _, _ := ir.FullField(fa); owner == tk {
-						if cst, ok := x.Call.Args[1].(*ssa.Const); ok && cst.Value != nil && cst.Value.String() == "true" {
+				scan = append(scan, sc)
+			})
+		}
+	}
+	for _, scanned := range scan {
+		ir.EachInstr(scanned, func(_ *ssa.BasicBlock, _ int, in ssa.Instruction) {
+			switch x := in.(type) {
+			case *ssa.Store:
+				if fa, ok := x.Addr.(*ssa.FieldAddr); ok {
+					if key, owner, typ, _ := ir.FullField(fa); owner == tk && isBoolish(typ) {
+						if cst, ok := x.Val.(*ssa.Const); ok && cst.Value != nil && cst.Value.String() == "true" {
 							fi.field = key
 						}
 					}
 				}
-			}
-			if sc := ir.StaticCallee(x); sc != nil && setterField[sc] != "" && len(x.Call.Args) == 2 {
-				if cst, ok := x.Call.Args[1].(*ssa.Const); ok && cst.Value != nil && cst.Value.String() == "true" {
-					fi.field = setterField[sc]
+			case *ssa.Call:
+				if ir.CallName(x) == "(*sync/atomic.Bool).Store" {
+					if fa, ok := x.Call.Args[0].(*ssa.FieldAddr); ok {
+						if key, owner, _, _ := ir.FullField(fa); owner == tk {
+							if cst, ok := x.Call.Args[1].(*ssa.Const); ok && cst.Value != nil && cst.Value.String() == "true" {
+								fi.field = key
+							}
+						}
+					}
+				}
+				if sc := ir.StaticCallee(x); sc != nil && setterField[sc] != "" && len(x.Call.Args) == 2 {
+					if cst, ok := x.Call.Args[1].(*ssa.Const); ok && cst.Value != nil && cst.Value.String() == "true" {
+						fi.field = setterField[sc]
+					}
 				}
 			}
-		}
-	})
+		})
+	}
 	if fi.field == "" {
 		return nil
 	}
@@ -1039,7 +1066,40 @@ func c16Typestate(c *Ctx, T *types.Named, fi *flagInfo, reachesSend func(ssa.Cal
 	tn := ir.TypeKey(T)
 	initM := c.P.Method(T, "Initialize")
 	closeM := c.P.Method(T, "Close")
-	// true-writes only in Initialize
+	// steps of the handshake: methods of the same type that only Initialize calls (completeHandshake, ...); what holds
+	// for Initialize is required of them together with their call site
+	stepSite := map[*ssa.Function]*ssa.Call{}
+	if initM != nil {
+		for _, fn := range c.P.LibFns {
+			if fn == initM || fn.Signature.Recv() == nil || fi.setter[fn] || fi.getter[fn] {
+				continue
+			}
+			rt := fn.Signature.Recv().Type()
+			if pt, ok := rt.(*types.Pointer); ok {
+				rt = pt.Elem()
+			}
+			if nt, ok := rt.(*types.Named); !ok || nt != T {
+				continue
+			}
+			var site *ssa.Call
+			n, only := 0, true
+			for _, e := range ir.Callers(c.G, fn) {
+				if e.Site == nil || !c.P.IsLib(e.Caller.Func) {
+					continue
+				}
+				n++
+				if call, ok := e.Site.(*ssa.Call); ok && e.Caller.Func == initM {
+					site = call
+				} else {
+					only = false
+				}
+			}
+			if n == 1 && only && site != nil {
+				stepSite[fn] = site
+			}
+		}
+	}
+	// true-writes only in Initialize (or one of its steps)
 	for _, fn := range c.P.LibFns {
 		if fi.setter[fn] {
 			continue
@@ -1049,7 +1109,7 @@ func c16Typestate(c *Ctx, T *types.Named, fi *flagInfo, reachesSend func(ssa.Cal
 			if !ok {
 				return
 			}
-			if v == "true" && fn != initM {
+			if v == "true" && fn != initM && stepSite[fn] == nil {
 				c.R.Violate("R-flag-typestate", tn+" flag set outside Initialize in "+fname(fn), c.Pos(in.Pos()), sprintf("%s marks the client initialized outside of Initialize", fname(fn)))
 			}
 			if v == "?" {
@@ -1069,28 +1129,27 @@ func c16Typestate(c *Ctx, T *types.Named, fi *flagInfo, reachesSend func(ssa.Cal
 	})
 	c.R.Check(len(sends) >= 2, "R-flag-typestate", tn+" handshake steps", c.Pos(initM.Pos()), sprintf("%d transport steps (request, initialized notification)", len(sends)),
 		"Initialize does not perform both handshake steps (initialize request and initialized notification)")
-	ir.EachInstr(initM, func(_ *ssa.BasicBlock, _ int, in ssa.Instruction) {
-		v, ok := fi.write(in)
-		if !ok || v != "true" {
-			return
-		}
-		okAll := true
-		why := ""
-		for _, s := range sends {
-			// the error result of s
-			var errv ssa.Value
-			if _, isTuple := s.Type().(*types.Tuple); isTuple {
-				for _, r := range *s.Referrers() {
-					if ex, ok := r.(*ssa.Extract); ok && ir.TypeStr(ex.Type()) == "error" {
-						errv = ex
-					}
+	errOf := func(s *ssa.Call) ssa.Value {
+		if _, isTuple := s.Type().(*types.Tuple); isTuple {
+			for _, r := range *s.Referrers() {
+				if ex, ok := r.(*ssa.Extract); ok && ir.TypeStr(ex.Type()) == "error" {
+					return ex
 				}
-			} else if ir.TypeStr(s.Type()) == "error" {
-				errv = s
+			}
+		} else if ir.TypeStr(s.Type()) == "error" {
+			return s
+		}
+		return nil
+	}
+	// the steps among `steps` that can precede `at` in fn and have not been seen to succeed there
+	unconfirmed := func(fn *ssa.Function, at ssa.Instruction, steps []*ssa.Call) string {
+		for _, s := range steps {
+			if ssa.Instruction(s) == at || !flow.Reaches(s, at) {
+				continue
 			}
 			succeeded := false
-			if errv != nil {
-				for _, g := range flow.Guards(initM, in.Block()) {
+			if errv := errOf(s); errv != nil {
+				for _, g := range flow.Guards(fn, at.Block()) {
 					if x, op, ok := nilCompare(g.If.Cond); ok && x == errv {
 						if (op == token.NEQ && !g.Branch) || (op == token.EQL && g.Branch) {
 							succeeded = true
@@ -1099,14 +1158,13 @@ func c16Typestate(c *Ctx, T *types.Named, fi *flagInfo, reachesSend func(ssa.Cal
 				}
 			}
 			if !succeeded {
-				okAll = false
-				why = "the step at " + c.Pos(s.Pos()) + " has not been seen to succeed"
+				return "the step at " + c.Pos(s.Pos()) + " has not been seen to succeed"
 			}
 		}
-		c.R.Check(okAll, "R-flag-typestate", tn+" flag set after both steps succeeded", c.Pos(in.Pos()), "the flag write is dominated by the success edge of every handshake step",
-			sprintf("%s.Initialize marks the client initialized although %s: a failed handshake leaves the client initialized", tn, why))
-		// no error return reachable after the flag is set
-		esc := flow.ExitsAvoiding(initM, in, func(x ssa.Instruction) bool {
+		return ""
+	}
+	noErrorAfter := func(fn *ssa.Function, from ssa.Instruction) *flow.Escape {
+		return flow.ExitsAvoiding(fn, from, func(x ssa.Instruction) bool {
 			if r, ok := x.(*ssa.Return); ok && len(ir.Results(r)) > 0 {
 				return ir.IsNilConst(ir.Results(r)[len(ir.Results(r))-1])
 			}
@@ -1115,9 +1173,83 @@ func c16Typestate(c *Ctx, T *types.Named, fi *flagInfo, reachesSend func(ssa.Cal
 			}
 			return false
 		}, false)
-		c.R.Check(esc == nil, "R-flag-typestate", tn+" no error return while initialized", c.Pos(in.Pos()), "every return after the flag write reports success",
-			sprintf("%s.Initialize can return an error after it marked the client initialized", tn))
-	})
+	}
+	hosts := []*ssa.Function{initM}
+	for h := range stepSite {
+		hosts = append(hosts, h)
+	}
+	sort.Slice(hosts, func(i, j int) bool { return hosts[i].String() < hosts[j].String() })
+	for _, host := range hosts {
+		host := host
+		hostSends := sends
+		if host != initM {
+			hostSends = nil
+			ir.EachInstr(host, func(_ *ssa.BasicBlock, _ int, in ssa.Instruction) {
+				if call, ok := in.(*ssa.Call); ok && reachesSend(call) {
+					hostSends = append(hostSends, call)
+				}
+			})
+		}
+		ir.EachInstr(host, func(_ *ssa.BasicBlock, _ int, in ssa.Instruction) {
+			v, ok := fi.write(in)
+			if !ok || v != "true" {
+				return
+			}
+			why := unconfirmed(host, in, hostSends)
+			if host == initM && why == "" && len(hostSends) > 0 {
+				// (in Initialize itself every step precedes the write)
+				for _, s := range hostSends {
+					if !flow.Reaches(s, in) {
+						why = "the step at " + c.Pos(s.Pos()) + " does not precede the write"
+					}
+				}
+			}
+			var esc *flow.Escape
+			if site := stepSite[host]; site != nil {
+				if why == "" {
+					why = unconfirmed(initM, site, sends)
+				}
+				// after the step has returned successfully Initialize must not fail any more
+				var from ssa.Instruction = site
+				if errv := errOf(site); errv != nil && errv.Referrers() != nil {
+					for _, r := range *errv.Referrers() {
+						if bin, ok := r.(*ssa.BinOp); ok && bin.Referrers() != nil {
+							if _, op, ok := nilCompare(bin); ok {
+								for _, rr := range *bin.Referrers() {
+									if ifi, ok := rr.(*ssa.If); ok {
+										succ := ifi.Block().Succs[1] // err != nil: success is the false edge
+										if op == token.EQL {
+											succ = ifi.Block().Succs[0]
+										}
+										if len(succ.Instrs) > 0 {
+											from = succ.Instrs[0]
+											if _, isRet := from.(*ssa.Return); isRet {
+												from = nil // judged below
+												if rs := ir.Results(succ.Instrs[0].(*ssa.Return)); len(rs) > 0 && !ir.IsNilConst(rs[len(rs)-1]) {
+													esc = &flow.Escape{Exit: succ.Instrs[0]}
+												}
+											}
+										}
+									}
+								}
+							}
+						}
+					}
+				}
+				if from != nil && esc == nil {
+					esc = noErrorAfter(initM, from)
+				}
+			}
+			c.R.Check(why == "", "R-flag-typestate", tn+" flag set after both steps succeeded", c.Pos(in.Pos()), "the flag write is dominated by the success edge of every handshake step",
+				sprintf("%s.Initialize marks the client initialized although %s: a failed handshake leaves the client initialized", tn, why))
+			// no error return reachable after the flag is set
+			if esc == nil {
+				esc = noErrorAfter(host, in)
+			}
+			c.R.Check(esc == nil, "R-flag-typestate", tn+" no error return while initialized", c.Pos(in.Pos()), "every return after the flag write reports success",
+				sprintf("%s.Initialize can return an error after it marked the client initialized", tn))
+		})
+	}
 	// Close clears the flag
 	if closeM != nil {
 		cleared := false
@@ -1177,30 +1309,45 @@ func c16Typestate(c *Ctx, T *types.Named, fi *flagInfo, reachesSend func(ssa.Cal
 		}
 		return ""
 	}
+	settles := map[*ssa.Function]bool{} // steps all of whose exits have set 'disconnected' or 'initialized'
+	for h := range stepSite {
+		if flow.ExitsAvoiding(h, nil, func(x ssa.Instruction) bool {
+			s := stateOf(x)
+			return s == "disconnected" || s == "initialized"
+		}, false) == nil {
+			settles[h] = true
+		}
+	}
 	ir.EachInstr(initM, func(_ *ssa.BasicBlock, _ int, in ssa.Instruction) {
 		if stateOf(in) != "connected" {
 			return
 		}
 		esc := flow.ExitsAvoiding(initM, in, func(x ssa.Instruction) bool {
 			s := stateOf(x)
+			if call, ok := x.(*ssa.Call); ok && settles[ir.StaticCallee(call)] {
+				return true
+			}
 			return s == "disconnected" || s == "initialized"
 		}, false)
 		c.R.Check(esc == nil, "R-flag-typestate", tn+" state after failed handshake", c.Pos(in.Pos()), "every exit after 'connected' sets 'disconnected' or 'initialized'",
 			sprintf("%s.Initialize can return while still reporting state 'connected' after a failed handshake", tn))
 	})
 	// 'initialized' state only together with the flag
-	ir.EachInstr(initM, func(_ *ssa.BasicBlock, _ int, in ssa.Instruction) {
-		if stateOf(in) != "initialized" {
-			return
-		}
-		dom := false
-		ir.EachInstr(initM, func(_ *ssa.BasicBlock, _ int, w ssa.Instruction) {
-			if v, ok := fi.write(w); ok && v == "true" && flow.Dominates(w, in) {
-				dom = true
+	for _, host := range hosts {
+		host := host
+		ir.EachInstr(host, func(_ *ssa.BasicBlock, _ int, in ssa.Instruction) {
+			if stateOf(in) != "initialized" {
+				return
 			}
+			dom := false
+			ir.EachInstr(host, func(_ *ssa.BasicBlock, _ int, w ssa.Instruction) {
+				if v, ok := fi.write(w); ok && v == "true" && flow.Dominates(w, in) {
+					dom = true
+				}
+			})
+			c.R.Check(dom, "R-flag-typestate", tn+" state initialized follows the flag", c.Pos(in.Pos()), "state 'initialized' is reported only after the flag is set", sprintf("%s reports state 'initialized' without having set the flag", tn))
 		})
-		c.R.Check(dom, "R-flag-typestate", tn+" state initialized follows the flag", c.Pos(in.Pos()), "state 'initialized' is reported only after the flag is set", sprintf("%s reports state 'initialized' without having set the flag", tn))
-	})
+	}
 }
 
 // unspill looks through a result that a deferred call forced into a stack cell: `*(alloc)` with a
